@@ -1,4 +1,5 @@
 import OxyModel.Proofs.Buffer.Settle
+import OxyModel.Proofs.Buffer.Heap
 
 /-! The retry loop of `ServeHTTP`: decision structure, views, ledger. -/
 namespace Buf
@@ -17,11 +18,17 @@ def bodyAfter (body : Option MultiBuf) (a : Attempt) : Option MultiBuf :=
   | none => none
   | some b => some (b.read a.read).2
 
-theorem attemptStep_eq (cfg : Cfg) (req : Req) (size : Nat) (a : Attempt) (k : Nat) (body : Option MultiBuf) (d : Nat) :
-    attemptStep cfg req size a k body d =
-      ⟨⟨copyRequest req size, readOf body a, d + (if (fresh cfg a).buffer.onDisk then 1 else 0)⟩,
+theorem attemptStep_eq (cfg : Cfg) (req : Req) (r : ReqRef) (hr : r.method = req.method) (size : Nat) (a : Attempt)
+    (k : Nat) (body : Option MultiBuf) (d : Nat) (h : Heap) :
+    attemptStep cfg req r size a k body d h =
+      ⟨⟨(copyRequestH h r size).1.deref (copyRequestH h r size).2, readOf body a,
+          d + (if (fresh cfg a).buffer.onDisk then 1 else 0)⟩,
         (settle cfg req k (fresh cfg a) req.method).bw, (settle cfg req k (fresh cfg a) req.method).rdr,
-        bodyAfter body a, (settle cfg req k (fresh cfg a) req.method).outcome⟩ := by
+        bodyAfter body a, (settle cfg req k (fresh cfg a) req.method).outcome,
+        handlerHeap a (copyRequestH h r size).1 (copyRequestH h r size).2⟩ := by
+  have hm : (copyRequestH h r size).2.method = req.method := hr
+  unfold attemptStep runHandler
+  simp only [hm]
   cases body <;> rfl
 
 theorem shouldRetry_le (cfg : Cfg) (req : Req) (k c : Nat) (h : shouldRetry cfg req k c = true) : k ≤ 10 := by
@@ -41,62 +48,81 @@ theorem settle_retry_imp (cfg : Cfg) (req : Req) (k : Nat) (b : BW) (m : String)
   · split at h
     · cases h
     · split at h
+      · cases h
       · split at h
-        · cases h
+        · split at h
+          · cases h
+          · split at h
+            · assumption
+            · cases h
         · split at h
           · assumption
           · cases h
-      · split at h
-        · assumption
-        · cases h
 
 theorem Att_retry_le (cfg : Cfg) (req : Req) (script : Nat → Attempt) (k : Nat)
     (h : (Att cfg req script k).outcome = .retry) : k ≤ 10 :=
   shouldRetry_le _ _ _ _ (settle_retry_imp _ _ _ _ _ h)
 
-theorem loop_decide (cfg : Cfg) (req : Req) (script : Nat → Attempt) (size c0 r0 : Nat) :
-    ∀ (fuel attempt : Nat) (body : Option MultiBuf) (views : List View) (recs : List (BW × Option Rdr)),
+theorem loop_decide (cfg : Cfg) (req : Req) (r : ReqRef) (hr : r.method = req.method) (script : Nat → Attempt)
+    (size c0 r0 : Nat) :
+    ∀ (fuel attempt : Nat) (body : Option MultiBuf) (views : List View) (recs : List (BW × Option Rdr)) (h : Heap),
     1 ≤ fuel → attempt + fuel = 12 →
     ∃ m, attempt ≤ m ∧ m ≤ 11 ∧
       (∀ j, attempt ≤ j → j < m → (Att cfg req script j).outcome = .retry) ∧
       (Att cfg req script m).outcome ≠ .retry ∧
-      (loop cfg req script size c0 r0 fuel attempt body views recs).views.length = views.length + (m + 1 - attempt) ∧
-      (loop cfg req script size c0 r0 fuel attempt body views recs).outOfFuel = false ∧
+      (loop cfg req r script size c0 r0 fuel attempt body views recs h).views.length = views.length + (m + 1 - attempt) ∧
+      (loop cfg req r script size c0 r0 fuel attempt body views recs h).outOfFuel = false ∧
       ((Att cfg req script m).outcome = .hijacked →
-        (loop cfg req script size c0 r0 fuel attempt body views recs).hijacked = true ∧
-        (loop cfg req script size c0 r0 fuel attempt body views recs).resp = {}) ∧
+        (loop cfg req r script size c0 r0 fuel attempt body views recs h).hijacked = true ∧
+        (loop cfg req r script size c0 r0 fuel attempt body views recs h).panicked = false ∧
+        (loop cfg req r script size c0 r0 fuel attempt body views recs h).resp = {}) ∧
       (∀ up, (Att cfg req script m).outcome = .final up →
-        (loop cfg req script size c0 r0 fuel attempt body views recs).hijacked = false ∧
-        (loop cfg req script size c0 r0 fuel attempt body views recs).resp = up) := by
+        (loop cfg req r script size c0 r0 fuel attempt body views recs h).hijacked = false ∧
+        (loop cfg req r script size c0 r0 fuel attempt body views recs h).panicked = false ∧
+        (loop cfg req r script size c0 r0 fuel attempt body views recs h).resp = up) ∧
+      ((Att cfg req script m).outcome = .panicked →
+        (loop cfg req r script size c0 r0 fuel attempt body views recs h).hijacked = false ∧
+        (loop cfg req r script size c0 r0 fuel attempt body views recs h).panicked = true ∧
+        (loop cfg req r script size c0 r0 fuel attempt body views recs h).resp = {}) := by
   intro fuel
   induction fuel with
-  | zero => intro _ _ _ _ h; omega
+  | zero => intro _ _ _ _ _ h; omega
   | succ fuel ih =>
-    intro attempt body views recs _ hsum
+    intro attempt body views recs h _ hsum
     unfold loop
-    simp only [attemptStep_eq]
+    simp only [attemptStep_eq cfg req r hr]
     cases ho : (settle cfg req attempt (fresh cfg (script attempt)) req.method).outcome with
     | hijacked =>
-      refine ⟨attempt, Nat.le_refl _, by omega, fun j h1 h2 => by omega, ?_, ?_, rfl, ?_, ?_⟩
+      refine ⟨attempt, Nat.le_refl _, by omega, fun j h1 h2 => by omega, ?_, ?_, rfl, ?_, ?_, ?_⟩
       · unfold Att; rw [ho]; intro h; cases h
       · simp [finish]
-      · intro _; exact ⟨rfl, rfl⟩
+      · intro _; exact ⟨rfl, rfl, rfl⟩
       · intro up h; unfold Att at h; rw [ho] at h; cases h
-    | final up =>
-      refine ⟨attempt, Nat.le_refl _, by omega, fun j h1 h2 => by omega, ?_, ?_, rfl, ?_, ?_⟩
+      · intro h; unfold Att at h; rw [ho] at h; cases h
+    | panicked =>
+      refine ⟨attempt, Nat.le_refl _, by omega, fun j h1 h2 => by omega, ?_, ?_, rfl, ?_, ?_, ?_⟩
       · unfold Att; rw [ho]; intro h; cases h
       · simp [finish]
       · intro h; unfold Att at h; rw [ho] at h; cases h
-      · intro up' h; unfold Att at h; rw [ho] at h; cases h; exact ⟨rfl, rfl⟩
+      · intro up h; unfold Att at h; rw [ho] at h; cases h
+      · intro _; exact ⟨rfl, rfl, rfl⟩
+    | final up =>
+      refine ⟨attempt, Nat.le_refl _, by omega, fun j h1 h2 => by omega, ?_, ?_, rfl, ?_, ?_, ?_⟩
+      · unfold Att; rw [ho]; intro h; cases h
+      · simp [finish]
+      · intro h; unfold Att at h; rw [ho] at h; cases h
+      · intro up' h; unfold Att at h; rw [ho] at h; cases h; exact ⟨rfl, rfl, rfl⟩
+      · intro h; unfold Att at h; rw [ho] at h; cases h
     | retry =>
       have hle : attempt ≤ 10 := Att_retry_le cfg req script attempt ho
-      obtain ⟨m, m1, m2, m3, m4, m5, m6, m7, m8⟩ :=
+      obtain ⟨m, m1, m2, m3, m4, m5, m6, m7, m8, m9⟩ :=
         ih (attempt + 1) ((bodyAfter body (script attempt)).map MultiBuf.seek0)
-          (views ++ [⟨copyRequest req size, readOf body (script attempt),
+          (views ++ [⟨(copyRequestH h r size).1.deref (copyRequestH h r size).2, readOf body (script attempt),
             onDiskCount recs + (if (fresh cfg (script attempt)).buffer.onDisk then 1 else 0)⟩])
           (((settle cfg req attempt (fresh cfg (script attempt)) req.method).bw,
-            (settle cfg req attempt (fresh cfg (script attempt)) req.method).rdr) :: recs) (by omega) (by omega)
-      refine ⟨m, by omega, m2, ?_, m4, ?_, m6, m7, m8⟩
+            (settle cfg req attempt (fresh cfg (script attempt)) req.method).rdr) :: recs)
+          (handlerHeap (script attempt) (copyRequestH h r size).1 (copyRequestH h r size).2) (by omega) (by omega)
+      refine ⟨m, by omega, m2, ?_, m4, ?_, m6, m7, m8, m9⟩
       · intro j h1 h2
         by_cases hj : j = attempt
         · subst hj; exact ho
@@ -130,41 +156,51 @@ theorem readOf_inv (req : Req) (body : Option MultiBuf) (a : Attempt) (h : BodyI
     · simp only [bodyAfter, Option.map, BodyInv, MultiBuf.seek0, MultiBuf.read, MultiBuf.data] at *
       exact ⟨h1, trivial⟩
 
-theorem loop_views (cfg : Cfg) (req : Req) (script : Nat → Attempt) (size c0 r0 : Nat) (P : Nat → View → Prop)
-    (hP : ∀ k d, P k ⟨copyRequest req size, expectedRead req (script k),
+/-- one attempt's effect on the store -/
+def stepHeap (r : ReqRef) (size : Nat) (a : Attempt) (h : Heap) : Heap :=
+  handlerHeap a (copyRequestH h r size).1 (copyRequestH h r size).2
+
+/-- what the attempt sees of the request when it starts in store `h` -/
+def viewReq (r : ReqRef) (size : Nat) (h : Heap) : OutReq := (copyRequestH h r size).1.deref (copyRequestH h r size).2
+
+theorem loop_views (cfg : Cfg) (req : Req) (r : ReqRef) (hr : r.method = req.method) (script : Nat → Attempt)
+    (size c0 r0 : Nat) (P : Nat → View → Prop) (I : Heap → Prop)
+    (hI : ∀ h a, I h → I (stepHeap r size a h))
+    (hP : ∀ k d h, I h → P k ⟨viewReq r size h, expectedRead req (script k),
       d + (if (fresh cfg (script k)).buffer.onDisk then 1 else 0)⟩) :
-    ∀ (fuel attempt : Nat) (body : Option MultiBuf) (views : List View) (recs : List (BW × Option Rdr)),
-    attempt = views.length + 1 → BodyInv req body →
+    ∀ (fuel attempt : Nat) (body : Option MultiBuf) (views : List View) (recs : List (BW × Option Rdr)) (h : Heap),
+    attempt = views.length + 1 → BodyInv req body → I h →
     (∀ i v, views[i]? = some v → P (i + 1) v) →
-    ∀ i v, (loop cfg req script size c0 r0 fuel attempt body views recs).views[i]? = some v → P (i + 1) v := by
+    ∀ i v, (loop cfg req r script size c0 r0 fuel attempt body views recs h).views[i]? = some v → P (i + 1) v := by
   intro fuel
   induction fuel with
-  | zero => intro attempt body views recs _ _ hv i v h; unfold loop at h; exact hv i v h
+  | zero => intro attempt body views recs h _ _ _ hv i v hh; unfold loop at hh; exact hv i v hh
   | succ fuel ih =>
-    intro attempt body views recs hat hb hv
-    obtain ⟨hr, hb'⟩ := readOf_inv req body (script attempt) hb
-    have hv' : ∀ i v, (views ++ [⟨copyRequest req size, readOf body (script attempt),
+    intro attempt body views recs h hat hb hi hv
+    obtain ⟨hrd, hb'⟩ := readOf_inv req body (script attempt) hb
+    have hv' : ∀ i v, (views ++ [⟨(copyRequestH h r size).1.deref (copyRequestH h r size).2, readOf body (script attempt),
         onDiskCount recs + (if (fresh cfg (script attempt)).buffer.onDisk then 1 else 0)⟩])[i]? = some v → P (i + 1) v := by
-      intro i v h
-      by_cases hi : i < views.length
-      · rw [List.getElem?_append_left hi] at h; exact hv i v h
-      · have hi' : views.length ≤ i := Nat.le_of_not_lt hi
-        rw [List.getElem?_append_right hi'] at h
+      intro i v hh
+      by_cases hlt : i < views.length
+      · rw [List.getElem?_append_left hlt] at hh; exact hv i v hh
+      · have hi' : views.length ≤ i := Nat.le_of_not_lt hlt
+        rw [List.getElem?_append_right hi'] at hh
         have : i - views.length = 0 := by
           cases hq : i - views.length with
           | zero => rfl
-          | succ n => rw [hq] at h; simp at h
-        rw [this] at h
-        simp only [List.getElem?_cons_zero, Option.some.injEq] at h
+          | succ n => rw [hq] at hh; simp at hh
+        rw [this] at hh
+        simp only [List.getElem?_cons_zero, Option.some.injEq] at hh
         have hie : i + 1 = attempt := by omega
-        rw [← h, hr, hie]; exact hP _ _
+        rw [← hh, hrd, hie]; exact hP _ _ h hi
     unfold loop
-    simp only [attemptStep_eq]
+    simp only [attemptStep_eq cfg req r hr]
     cases ho : (settle cfg req attempt (fresh cfg (script attempt)) req.method).outcome with
-    | hijacked => intro i v h; exact hv' i v h
-    | final up => intro i v h; exact hv' i v h
+    | hijacked => intro i v hh; exact hv' i v hh
+    | panicked => intro i v hh; exact hv' i v hh
+    | final up => intro i v hh; exact hv' i v hh
     | retry =>
-      exact ih (attempt + 1) _ _ _ (by simp; omega) hb' hv'
+      exact ih (attempt + 1) _ _ _ _ (by simp; omega) hb' (hI h (script attempt) hi) hv'
 
 theorem sum_map_eq {α : Type} (l : List α) (f g : α → Nat) (h : ∀ x ∈ l, f x = g x) : (l.map f).sum = (l.map g).sum := by
   induction l with
@@ -185,16 +221,17 @@ theorem finish_ledger (up : Up) (hij : Bool) (views : List View) (recs : List (B
   simp only [finish]
   omega
 
-theorem loop_ledger (cfg : Cfg) (req : Req) (script : Nat → Attempt) (size c0 r0 : Nat) :
-    ∀ (fuel attempt : Nat) (body : Option MultiBuf) (views : List View) (recs : List (BW × Option Rdr)),
+theorem loop_ledger (cfg : Cfg) (req : Req) (r : ReqRef) (hr : r.method = req.method) (script : Nat → Attempt)
+    (size c0 r0 : Nat) :
+    ∀ (fuel attempt : Nat) (body : Option MultiBuf) (views : List View) (recs : List (BW × Option Rdr)) (hp : Heap),
     (∀ e ∈ recs, RecOK e.1 e.2) →
-    (loop cfg req script size c0 r0 fuel attempt body views recs).created + r0 =
-      (loop cfg req script size c0 r0 fuel attempt body views recs).removed + c0 := by
+    (loop cfg req r script size c0 r0 fuel attempt body views recs hp).created + r0 =
+      (loop cfg req r script size c0 r0 fuel attempt body views recs hp).removed + c0 := by
   intro fuel
   induction fuel with
-  | zero => intro attempt body views recs h; exact finish_ledger {} false views recs c0 r0 h
+  | zero => intro attempt body views recs hp h; exact finish_ledger {} false views recs c0 r0 h
   | succ fuel ih =>
-    intro attempt body views recs h
+    intro attempt body views recs hp h
     have hrec := (settle_spec cfg req attempt (script attempt)).1
     have h' : ∀ e ∈ ((settle cfg req attempt (fresh cfg (script attempt)) req.method).bw,
         (settle cfg req attempt (fresh cfg (script attempt)) req.method).rdr) :: recs, RecOK e.1 e.2 := by
@@ -203,11 +240,12 @@ theorem loop_ledger (cfg : Cfg) (req : Req) (script : Nat → Attempt) (size c0 
       · exact hrec
       · exact h e he
     unfold loop
-    simp only [attemptStep_eq]
+    simp only [attemptStep_eq cfg req r hr]
     cases ho : (settle cfg req attempt (fresh cfg (script attempt)) req.method).outcome with
     | hijacked => exact finish_ledger _ _ _ _ _ _ h'
+    | panicked => exact finish_ledger {} false [] _ c0 r0 h'
     | final up => exact finish_ledger _ _ _ _ _ _ h'
-    | retry => exact ih _ _ _ _ h'
+    | retry => exact ih _ _ _ _ _ h'
 
 /-! ## `multibuf.New` -/
 
@@ -249,20 +287,22 @@ theorem multibufNew_spec (input : Bytes) (mx : Int) (mm : Nat) :
     · simp [MultiBuf.data, List.take_of_length_le (Nat.le_of_lt hml)]
     · simp only; omega
 
-theorem loop_created_ge (cfg : Cfg) (req : Req) (script : Nat → Attempt) (size c0 r0 : Nat) :
-    ∀ (fuel attempt : Nat) (body : Option MultiBuf) (views : List View) (recs : List (BW × Option Rdr)),
-    c0 ≤ (loop cfg req script size c0 r0 fuel attempt body views recs).created := by
+theorem loop_created_ge (cfg : Cfg) (req : Req) (r : ReqRef) (hr : r.method = req.method) (script : Nat → Attempt)
+    (size c0 r0 : Nat) :
+    ∀ (fuel attempt : Nat) (body : Option MultiBuf) (views : List View) (recs : List (BW × Option Rdr)) (hp : Heap),
+    c0 ≤ (loop cfg req r script size c0 r0 fuel attempt body views recs hp).created := by
   intro fuel
   induction fuel with
-  | zero => intro attempt body views recs; exact Nat.le_add_right _ _
+  | zero => intro attempt body views recs hp; exact Nat.le_add_right _ _
   | succ fuel ih =>
-    intro attempt body views recs
+    intro attempt body views recs hp
     unfold loop
-    simp only [attemptStep_eq]
+    simp only [attemptStep_eq cfg req r hr]
     cases ho : (settle cfg req attempt (fresh cfg (script attempt)) req.method).outcome with
     | hijacked => exact Nat.le_add_right _ _
+    | panicked => exact Nat.le_add_right _ _
     | final up => exact Nat.le_add_right _ _
-    | retry => exact ih _ _ _ _
+    | retry => exact ih _ _ _ _ _
 
 /-! ## `ServeHTTP` before the loop -/
 
@@ -280,8 +320,8 @@ theorem serve_rejected (cfg : Cfg) (req : Req) (script : Nat → Attempt) (h : r
 
 theorem serve_admitted (cfg : Cfg) (req : Req) (script : Nat → Attempt) (h : ¬ requestOver cfg req) :
     ∃ b c, b.data = req.body ∧ b.pos = 0 ∧ (effMem cfg.maxReq cfg.memReq ≤ req.body.length → c = 1) ∧
-      serve cfg req script = loop cfg req script req.body.length c c (DefaultMaxRetryAttempts + 1) 1
-        (if req.body.length == 0 then none else some b) [] [] := by
+      serve cfg req script = loop cfg req (Heap.ofReq req).2 script req.body.length c c (DefaultMaxRetryAttempts + 1) 1
+        (if req.body.length == 0 then none else some b) [] [] (Heap.ofReq req).1 := by
   obtain ⟨e1, _, e3, e4⟩ := multibufNew_spec req.body cfg.maxReq cfg.memReq
   obtain ⟨b, hb, hd, hl, hp⟩ := e3 h
   have hc : checkLimit cfg req = true := by
